@@ -342,6 +342,7 @@ psgstrf_column_dfs(
     
     /* Tidy up the pointers before exit */
     xprune[jcol] = k;     /* upper bound for pruning */
+    SLU_MT_VEV(VE_COL_SUPER, pnum, jcol, nsuper);
     supno[jcol] = nsuper;
     xsup_end[nsuper] = jcol + 1;
     
